@@ -382,8 +382,21 @@ def transform_and_slice_picture(codec_features, picture):
     set_coding_parameters(state, codec_features["video_parameters"])
 
     # NB: picture_encode corrupts the supplied picture arrays so a copy is
-    # provided here
-    picture_encode(state, deepcopy(picture))
+    # provided here. Each row is copied separately since a single deepcopy
+    # would preserve any sharing of row (or component) objects in the supplied
+    # picture (e.g. ``[[0] * width] * height``) which the in-place transform
+    # would then process several times over.
+    picture_encode(
+        state,
+        {
+            key: (
+                [deepcopy(row) for row in value]
+                if key in ("Y", "C1", "C2")
+                else deepcopy(value)
+            )
+            for key, value in picture.items()
+        },
+    )
 
     # Perform DC prediction
     if codec_features["profile"] == Profiles.low_delay:
